@@ -23,7 +23,7 @@
     calls: C08; local calls: C07; prologue: C09; exit = ret) and what the CPU does with the bytes are exercised by checks/C03.py (every opcode x every register
     pair x boundary immediates / displacements x control-flow shapes x 4 VM kinds) against the interpreter. *)
 From Coq Require Import ZArith List Bool.
-From RbpfV Require Import MachInt Ebpf Cases Mem Stack Helpers InterpDefs Interp MemLemmas InterpProofs ClMemProofs ClStep ClRun JitStep JitRun Isa WellFormed Verifier JitLogicProofs X86Enc JitEncProofs X86Sem X86Seq ClAluProofs ClJmpProofs JitArmsProofs JitMulDivProofs ClMiscProofs JitMiscProofs X86Stk JitFrameProofs.
+From RbpfV Require Import MachInt Ebpf Cases Mem Stack Helpers InterpDefs Interp MemLemmas InterpProofs ClMemProofs ClStep ClRun JitStep JitRun IsaDef DefRun Isa WellFormed Verifier JitLogicProofs X86Enc JitEncProofs X86Sem X86Seq ClAluProofs ClJmpProofs JitArmsProofs JitMulDivProofs ClMiscProofs JitMiscProofs X86Stk JitFrameProofs.
 From RbpfV.gen Require Import JitLogic JitEnc JitArms JitMulDiv JitMisc JitFrame.
 Import ListNotations.
 Open Scope Z_scope.
@@ -244,6 +244,56 @@ Proof.
   eexists. split; vm_compute; reflexivity.
 Qed.
 
+(** C03 in the property's own terms.  [isa_steps_d] (theories/DefRun.v) is the ISA run that tracks which registers hold a
+    defined value -- r1 and r10 at entry; a helper call defines r0 and un-defines r1-r5 -- and stops when an instruction
+    would read an undefined one ([reads], theories/IsaDef.v).  Whenever it returns (the program terminates within the
+    budget, every access is in bounds, nothing undefined is read), the interpreter and the x86-64 code return that value and
+    leave that memory: for every accepted program whose calls are helper calls, every input and budget, every content of
+    the registers the prologue does not set and every garbage left by helpers. *)
+Theorem C03_jit_agrees_with_interpreter : forall E m0 clob fuel R0 r m',
+  bytes_ok (e_prog E) -> acc (e_prog E) -> env_ok E -> mem_ok m0 -> d7_free E ->
+  (forall k, In k (starts (e_prog E)) ->
+     (opc (insn_at (e_prog E) k) = op_call ->
+        src (insn_at (e_prog E) k) = 0 /\ e_helpers E (u32 (imm (insn_at (e_prog E) k))) <> None) /\
+     (opc (insn_at (e_prog E) k) mod 8 = 0 -> 0 <= imm (insn_at (e_prog E) k))) ->
+  (forall x, 0 <= R0 x < 2 ^ 64) -> R0 10 = e_mem_base E ->
+  R0 (ez 1) = rd (isa_init_regs E) 1 -> R0 (ez 10) = e_stack_base E + e_stack_len E ->
+  isa_steps_d fuel E D0 (isa_init_regs E, 0, 0, stacks0, m0) = ODone r m' ->
+  Interp.run fuel E m0 = ODone r m' /\ jit_steps clob fuel E (R0, 0, m0) = ODone r m'.
+Proof. exact jit_agrees_with_interpreter. Qed.
+
+(** what "depending on undefined state" means here: two register files that agree on the defined registers are taken by
+    the same ISA step to files that agree on the registers defined afterwards, with the same next pc, memory and value *)
+Theorem C03_undefined_registers_do_not_matter : forall E i D reg1 reg2 next fidx stacks m st1,
+  agree D reg1 reg2 -> wf_insn i -> 0 <= dst i <= 10 -> 0 <= src i <= 10 -> In (opc i) cl_ops ->
+  (opc i = op_call -> src i = 0) -> (opc i = op_exit -> fidx = 0) ->
+  forallb (fun r => inl r D) (reads i) = true ->
+  isa_exec E i reg1 next fidx stacks m = Ok st1 ->
+  match st1 with
+  | SNext (r1, pc1, f1, s1, m1) =>
+      ArmBase.regs_ok r1 -> exists r2, isa_exec E i reg2 next fidx stacks m = Ok (SNext (r2, pc1, f1, s1, m1)) /\ agree (defd_after D i) r1 r2
+  | SRet v m1 => isa_exec E i reg2 next fidx stacks m = Ok (SRet v m1)
+  end.
+Proof. exact isa_exec_agree. Qed.
+
+(** non-vacuity of the tracked run: ldxw r0,[r1+0]; mov r2,0; mov r3,0; mov r4,0; mov r5,0; mov r1,r0; call 1; be32 r0; exit
+    reads only defined registers and returns in the tracked run, the interpreter and the compiled code *)
+Definition drun_prog : list Z := hexbytes 72 0x6110000000000000b702000000000000b703000000000000b704000000000000b705000000000000bf010000000000008500000001000000dc000000200000009500000000000000.
+Definition drun_env : ienv :=
+  mk_env drun_prog jrun_helpers (usage_map drun_prog None)
+         {| r_base := 0x10000000; r_data := [] |} {| r_base := 0x20000000; r_data := [1; 2; 3; 4] |} 0x30000000 [].
+Example C03_defined_run_example :
+  accb drun_prog = true /\ bytes_okb drun_prog = true /\
+  jrun_R0 (ez 1) = rd (isa_init_regs drun_env) 1 /\
+  (exists m, isa_steps_d 100 drun_env D0 (isa_init_regs drun_env, 0, 0, stacks0, jrun_mem) = ODone 0x02020304 m /\
+             Interp.run 100 drun_env jrun_mem = ODone 0x02020304 m /\
+             jit_steps jrun_clob 100 drun_env (jrun_R0, 0, jrun_mem) = ODone 0x02020304 m).
+Proof.
+  split; [vm_compute; reflexivity|]. split; [vm_compute; reflexivity|]. split; [vm_compute; reflexivity|].
+  eexists. split; [vm_compute; reflexivity|]. split; vm_compute; reflexivity.
+Qed.
+
+
 Print Assumptions C03_register_map.
 Print Assumptions C03_jump_fixup.
 Print Assumptions C03_enc_alu.
@@ -265,3 +315,5 @@ Print Assumptions C03_step_simulates.
 Print Assumptions C03_run_refines.
 Print Assumptions C03_helper_call_simulates.
 Print Assumptions C03_reference_without_calls.
+Print Assumptions C03_jit_agrees_with_interpreter.
+Print Assumptions C03_undefined_registers_do_not_matter.
